@@ -95,7 +95,7 @@ var properties = map[string]propSpec{
 		Rule:       "directed scenarios (two consecutive leaderships that fail before replicating leave different uncommitted entries at one index, then the holder of the older one leads; stale candidate; stale suffix under installation) and seeded live-cluster runs producing divergent uncommitted suffixes (isolated leaders, stalls released late, crashes) then healing; every append / reopened log / final dump is a sighting in a global (index, term) ledger; non-trivial if at least one truncation or log reset happened and at least 500 sightings were re-checked against the ledger; distinct = distinct abstract trace",
 		Nontrivial: all(ge("ledger-rechecks", 500)),
 		MinQuick:   16, MinThorough: 150,
-		Counters:    []string{"appends", "leader-appends", "ledger-rechecks", "truncations", "log-resets", "log-dumps", "incarnations", "leaders-elected"},
+		Counters:    []string{"appends", "leader-appends", "ledger-rechecks", "acknowledged-requests-compared-with-log", "truncations", "log-resets", "log-dumps", "incarnations", "leaders-elected"},
 		Assumptions: stdAssumptions,
 	},
 	"C07": {
